@@ -1,5 +1,5 @@
-(* C06 lemmas.  Part 1: flag arithmetic over the regenerated constants, witnesses of the known classes,
-   the cache entries that can never be disturbed.  Part 2 (below): invariant + simulation. *)
+(* C06 lemmas.  Part 1: flag arithmetic over the regenerated constants, equality of shapes, and the histories that
+   refuted transparency before the fixes (Old_C06.v), now transparent.  Parts 2/3: ProofsB_C06.v, ProofsC_C06.v. *)
 From Coq Require Import NArith Bool List Lia.
 From Gen Require Import SlotFlags.
 From C06 Require Import Model_C06.
@@ -94,93 +94,30 @@ Proof.
   - intro H. apply N.eqb_eq in H. now subst.
 Qed.
 
-(* ------------------------------------------------------------------------------------------- witnesses *)
+(* ------------------------------------------------------------------------------------------- the former witnesses *)
 Definition dd (v : val) (w e c : bool) : pdesc := {| d_kind := KData (Some v) (Some w); d_enum := Some e; d_conf := Some c |}.
 Definition da (g s : val) (e c : bool) : pdesc := {| d_kind := KAcc (Some g) (Some s); d_enum := Some e; d_conf := Some c |}.
 
-(* DESIGN.md section 5 #11: `delete p.y; p.z = 7` then `o.y` reads 7 *)
+(* the same histories as Old_C06.w_* (DESIGN.md section 5 #11, #12 and the two classes found by this check) *)
 Definition w_proto_layout : list op :=
   [OpAlloc false None; OpDefine 2 0 (dd (VNum 1) true true true); OpDefine 2 1 (dd (VNum 2) true true true);
    OpAlloc false (Some 2); OpGet 0 1 3; OpGet 0 1 3; OpDelete 2 1; OpDefine 2 2 (dd (VNum 7) true true true); OpGet 0 1 3].
-(* ... and `delete proto.a` after caching `o.b` indexes out of bounds *)
 Definition w_proto_panic : list op :=
   [OpAlloc false None; OpDefine 2 0 (dd (VNum 1) true true true); OpDefine 2 1 (dd (VNum 2) true true true);
    OpAlloc false (Some 2); OpGet 0 1 3; OpGet 0 1 3; OpDelete 2 0; OpGet 0 1 3].
-(* #12: cached `globalThis.y = v` still writes after writable:false *)
 Definition w_unique_attr : list op :=
   [OpDefine 1 0 (dd (VNum 1) true true true); OpSet 0 0 1 (VNum 2); OpSet 0 0 1 (VNum 3);
    OpDefine 1 0 {| d_kind := KData None (Some false); d_enum := None; d_conf := None |}; OpSet 0 0 1 (VNum 4); OpGetGlobal 0 0].
-(* an own global shadows a cached Object.prototype property in place *)
 Definition w_unique_shadow : list op :=
   [OpDefine 0 0 (dd (VNum 1) true true true); OpGetGlobal 0 0; OpGetGlobal 0 0; OpDefine 1 0 (dd (VNum 2) true true true); OpGetGlobal 0 0].
-(* strict set through a cached accessor slot whose setter became undefined *)
 Definition w_setter_missing : list op :=
   [OpAlloc false None; OpDefine 2 0 (da (VFun 1) (VFun 2) true true); OpSet 0 0 2 (VNum 1); OpSet 0 0 2 (VNum 2);
    OpDefine 2 0 {| d_kind := KAcc None (Some VUndef); d_enum := None; d_conf := None |}; OpSet 0 0 2 (VNum 3)].
 
-Definition refuted (ops : list op) : Prop := observable (run_cached ops) <> observable (run_uncached ops).
+Definition transparent_on (ops : list op) : Prop :=
+  observable (run_cached ops) = observable (run_uncached ops) /\ ~ In None (run_cached ops).
 
-Lemma known_witness_lemma :
-  (first_known init w_proto_layout 0 = Some (6, KProtoLayout) /\ refuted w_proto_layout) /\
-  (first_known init w_proto_panic 0 = Some (6, KProtoLayout) /\ refuted w_proto_panic) /\
-  (first_known init w_unique_attr 0 = Some (3, KUniqueAttr) /\ refuted w_unique_attr) /\
-  (first_known init w_unique_shadow 0 = Some (3, KUniqueShadow) /\ refuted w_unique_shadow) /\
-  (first_known init w_setter_missing 0 = Some (5, KSetterMissing) /\ refuted w_setter_missing).
-Proof.
-  repeat split; try (vm_compute; reflexivity); unfold refuted; vm_compute; intro H; discriminate H.
-Qed.
-
-(* the out-of-bounds case: the cached run panics, the uncached one does not *)
-Lemma proto_panic_lemma : In None (run_cached w_proto_panic) /\ ~ In None (run_uncached w_proto_panic).
-Proof.
-  split.
-  - vm_compute. repeat (first [left; reflexivity | right]).
-  - vm_compute. intuition discriminate.
-Qed.
-
-(* ------------------------------------------------------------------------------------------- what can be disturbed *)
-(* an entry keyed by a shared shape and not flagged PROTOTYPE rests on nothing a heap step can change *)
-Lemma shared_own_entry_stable : forall h h' k p sl,
-  has_flag (s_attrs sl) sf_PROTOTYPE = false ->
-  entry_deps h k (ShShared p, sl) = entry_deps h' k (ShShared p, sl).
-Proof. intros h h' k p sl H. unfold entry_deps. rewrite H. reflexivity. Qed.
-
-Lemma tslot_eqb_refl a : tslot_eqb a a = true.
-Proof. unfold tslot_eqb. now rewrite N.eqb_refl, dattrs_eqb_refl. Qed.
-Lemma opt_eqb_refl {A} (f : A -> A -> bool) (x : option A) : (forall a, f a a = true) -> opt_eqb f x x = true.
-Proof. intro H. destruct x; simpl; auto. Qed.
-Lemma deps_eqb_refl d : deps_eqb d d = true.
-Proof.
-  destruct d as [[l p] q]. unfold deps_eqb.
-  rewrite (opt_eqb_refl tslot_eqb l tslot_eqb_refl), (opt_eqb_refl N.eqb p N.eqb_refl).
-  rewrite (opt_eqb_refl (opt_eqb tslot_eqb) q); auto.
-  intro a. apply opt_eqb_refl. apply tslot_eqb_refl.
-Qed.
-
-Lemma classify_shared_own : forall h h' k p sl,
-  has_flag (s_attrs sl) sf_PROTOTYPE = false -> classify_entry h h' k (ShShared p, sl) = None.
-Proof.
-  intros. unfold classify_entry. rewrite (shared_own_entry_stable h h' k p sl H). now rewrite deps_eqb_refl.
-Qed.
-
-Lemma first_some_exists {A B} (f : A -> option B) l y : first_some f l = Some y -> exists x, In x l /\ f x = Some y.
-Proof.
-  induction l; simpl; try discriminate. destruct (f a) eqn:E.
-  - intro H. inversion H; subst. exists a; auto.
-  - intro H. destruct (IHl H) as [x [? ?]]. exists x; auto.
-Qed.
-
-(* a disturbance always concerns a PROTOTYPE-flagged entry or an entry keyed by a unique shape *)
-Lemma disturbed_only_proto_or_unique_lemma : forall h h' ss c,
-  disturbed h h' ss = Some c ->
-  exists id ca s sl, In (id, ca) ss /\ In (s, sl) (c_entries ca) /\
-    (has_flag (s_attrs sl) sf_PROTOTYPE = true \/ exists u, s = ShUnique u).
-Proof.
-  intros h h' ss c H. unfold disturbed in H.
-  apply first_some_exists in H as [[[[kd n] k] ca] [Hin H]].
-  apply first_some_exists in H as [[s sl] [Hin2 H]].
-  exists (kd, n, k), ca, s, sl. repeat split; auto.
-  destruct (has_flag (s_attrs sl) sf_PROTOTYPE) eqn:E; auto.
-  right. destruct s as [p|u]; [|eauto].
-  rewrite (classify_shared_own h h' k p sl E) in H. discriminate.
-Qed.
+Lemma fixed_witness_lemma :
+  transparent_on w_proto_layout /\ transparent_on w_proto_panic /\ transparent_on w_unique_attr /\
+  transparent_on w_unique_shadow /\ transparent_on w_setter_missing.
+Proof. repeat split; try (vm_compute; reflexivity); vm_compute; intuition discriminate. Qed.
